@@ -355,6 +355,147 @@ async def mqtt_case(ctx, version: str | None, items: list[tuple[str, str]]) -> N
     ctx.case(("mqtt", version, tuple(items)), nontrivial=errors > 0, sample=case)
 
 
+STEP_TRIGGERS = {
+    # what is pending when the step is interrupted / slow: (lines fed before, the line whose step writes, probe afterwards)
+    "flush": (["tx-parked"], "1;255;3;0;{wake};1\n"),
+    "config-reply": ([], "1;255;3;0;6;\n"),
+    "time-reply": ([], "1;255;3;0;1;\n"),
+    "id-response": ([], "255;255;3;0;3;\n"),
+    "value-reply": ([], "1;0;2;0;2;\n"),
+    "presentation-request": ([], "9;0;1;0;0;1\n"),
+    "version-query": (["version-unknown"], "1;0;1;0;2;5\n"),
+}
+PROBE_LINES = ["1;0;1;0;2;after\n", "1;255;3;0;{wake};2\n", "1;255;3;0;6;\n", "1;255;3;0;{wake};3\n", "junk\n", "1;0;2;0;2;\n"]
+
+
+async def _prepare_step(version: str, trigger: str):
+    from aiomysensors.model.message import Message
+    from aiomysensors.model.node import Child, Node
+
+    before, line = STEP_TRIGGERS[trigger]
+    gateway, transport = new_gateway(None if "version-unknown" in before else version)
+    gateway.nodes[1] = Node(1, 17, "2.0", children={0: Child(0, 3, values={2: "stored"}), 1: Child(1, 3)},
+                            sleeping="tx-parked" in before)
+    if "tx-parked" in before:
+        await gateway.send(Message(1, 0, 1, 0, 2, "parked-a"))
+        await gateway.send(Message(1, 1, 1, 1, 3, "parked-b"))
+    wake = 32 if gateway.protocol.VERSION == "2.2" else 22
+    transport.take_writes()
+    return gateway, transport, line.format(wake=wake), wake
+
+
+async def _probe(ctx, gateway, transport, wake: int, case: dict, what: str) -> None:
+    """After the disturbance the gateway must be usable: fresh listen(), a few well-formed lines and one malformed."""
+    stepper = Stepper(gateway, transport)
+    for probe in PROBE_LINES:
+        kind, value = await stepper.rx(probe.format(wake=wake))
+        ctx.clause("probe-after-disturbed-step")
+        if kind == "error" and not is_library_error(value):
+            info = exc_info(value)
+            ctx.violation("foreign-exception-" + info["class"], f"{what}: afterwards {probe.format(wake=wake)!r} raised "
+                                                                f"{info['class']}({value!s:.80}) in {info.get('raised_in')}", case)
+            break
+        if probe.startswith("1;0;1;0;2;after") and kind != "yield":
+            ctx.violation("gateway-unusable-after-error", f"{what}: afterwards the well-formed set {probe!r} was not processed "
+                                                          f"({type(value).__name__})", case)
+    await stepper.close()
+
+
+async def interrupted_step_case(ctx, version: str, trigger: str, how: str, outcome: str) -> None:
+    """The application stops waiting for the next message (task.cancel() or a wait_for timeout around anext(listen())) while
+    the controller is inside a step with a write pending.  The pending write then completes / fails / stays cancelled.
+    Listening again must work: only library errors, and well-formed lines are processed."""
+    case = {"kind": "interrupted-step", "version": version, "trigger": trigger, "how": how, "outcome": outcome}
+    gateway, transport, line, wake = await _prepare_step(version, trigger)
+    transport.gate = True
+    transport.lines.append(line)
+    iterator = gateway.listen()
+    task = asyncio.ensure_future(iterator.__anext__())
+    for _ in range(60):
+        await asyncio.sleep(0)
+        if transport.pending or task.done():
+            break
+    ctx.case(("interrupted-step", version, trigger, how, outcome), sample=case)
+    if not transport.pending:
+        ctx.obs("interrupted-step:no-write-pending:" + trigger)
+    task.cancel()
+    try:
+        await task
+    except asyncio.CancelledError:
+        ctx.clause("step-interrupted-with-write-pending") if transport.pending else None
+    except Exception as exc:  # noqa: BLE001
+        if not is_library_error(exc):
+            ctx.violation("foreign-exception-" + type(exc).__name__, f"interrupted step ({trigger}) raised {type(exc).__name__}", case)
+    for future, _line, _attempt in list(transport.pending):
+        if not future.done():
+            future.set_result(outcome == "fails")
+    transport.pending.clear()
+    transport.gate = False
+    try:
+        await iterator.aclose()
+    except Exception as exc:  # noqa: BLE001
+        if not is_library_error(exc):
+            ctx.violation("foreign-exception-" + type(exc).__name__, f"closing the interrupted listen() raised {type(exc).__name__}", case)
+    await asyncio.sleep(0)
+    await _probe(ctx, gateway, transport, wake, case, f"listen step interrupted by {how} while the {trigger} write was pending")
+
+
+def slow_reply_case(ctx, version: str, trigger: str, seconds: float) -> None:
+    """A write the controller makes while handling a line stays pending for a long (virtual) time - the peer is not reading,
+    the serial line is stuck - and then completes.  Asking for the next message still ends in a message or a library error."""
+    from ..vloop import LogicalDeadlock, run_virtual
+
+    case = {"kind": "slow-reply", "version": version, "trigger": trigger, "seconds": seconds}
+    box: dict = {}
+
+    async def scenario() -> None:
+        gateway, transport, line, wake = await _prepare_step(version, trigger)
+        transport.gate = True
+        transport.lines.append(line)
+        iterator = gateway.listen()
+        task = asyncio.ensure_future(iterator.__anext__())
+        waited = 0.0
+        while waited < seconds and not task.done():
+            step = min(seconds - waited, max(1.0, seconds / 50))
+            await asyncio.sleep(step)
+            waited += step
+        box["pending_after_wait"] = len(transport.pending)
+        while not task.done():
+            for future, _line, _attempt in list(transport.pending):
+                if not future.done():
+                    future.set_result(False)
+            transport.pending.clear()
+            await asyncio.sleep(0)
+        try:
+            box["result"] = ("yield", await task)
+        except Exception as exc:  # noqa: BLE001
+            box["result"] = ("error", exc)
+        transport.gate = False
+        try:
+            await iterator.aclose()
+        except Exception:  # noqa: BLE001
+            pass
+        await _probe(ctx, gateway, transport, wake, case, f"{trigger} write pending for {seconds} virtual seconds")
+
+    result, _loop = run_virtual(scenario)
+    ctx.case(("slow-reply", version, trigger, seconds), sample=case)
+    if isinstance(result, LogicalDeadlock):
+        ctx.violation("listen-deadlock", f"logical deadlock in {case}", case)
+        return
+    if isinstance(result, BaseException):
+        from ..harness import scenario_exception
+
+        scenario_exception(ctx, result, case, "slow-reply")
+        return
+    ctx.clause("slow-write-step")
+    kind, value = box["result"]
+    if kind == "error" and not is_library_error(value):
+        info = exc_info(value)
+        ctx.violation("foreign-exception-" + info["class"], f"the {trigger} write stayed pending for {seconds} virtual seconds: "
+                                                            f"listen raised {info['class']}({value!s:.60}) in {info.get('raised_in')}",
+                      case)
+
+
 def concurrent_cases(ctx) -> None:
     """Listener flushing a sleep buffer while application tasks call send(): every interleaving at the
     Transport.write suspension points (Director, vf.sched) - the exception class escaping listen()."""
@@ -393,7 +534,11 @@ def run_case(ctx, case: dict) -> None:
                 ctx.violation("concurrent-send-foreign-exception-" + err["class"], f"listen raised {err}", case)
         ctx.case(("sched", repr(case["config"]), tuple(case["choices"])))
         return
-    if kind == "bytes":
+    if kind == "interrupted-step":
+        arun(interrupted_step_case(ctx, case["version"], case["trigger"], case["how"], case["outcome"]))
+    elif kind == "slow-reply":
+        slow_reply_case(ctx, case["version"], case["trigger"], case["seconds"])
+    elif kind == "bytes":
         arun(byte_case(ctx, case["version"], [bytes.fromhex(c) for c in case["chunks"]], case["eof"],
                        case.get("via_tcp", False)))
     elif kind == "tcp-gateway":
@@ -410,6 +555,19 @@ def run(ctx) -> None:
         run_history_cases(ctx, single_step_cases(ctx))
         run_history_cases(ctx, random_cases(ctx))
         concurrent_cases(ctx)
+        index = 0
+        for version in ("1.4", "2.0", "2.1", "2.2"):
+            for trigger in STEP_TRIGGERS:
+                if trigger in ("flush", "presentation-request") and not version.startswith("2"):
+                    continue
+                for how, outcome in (("cancel", "completes"), ("cancel", "fails"), ("timeout", "completes")):
+                    index += 1
+                    if ctx.mine(index):
+                        arun(interrupted_step_case(ctx, version, trigger, how, outcome))
+                for seconds in (0.5, 29, 31, 61, 301, 3601, 90000):
+                    index += 1
+                    if ctx.mine(index):
+                        slow_reply_case(ctx, version, trigger, seconds)
         texts = ["Grüße 21.5°C", "日本語", "😀", "a;b", " x ", "plain", "\x00", "ß" * 300]
         for i in range(ctx.pick(40, 800) // ctx.shard_count + 1):
             version = VERSIONS[i % 5]
